@@ -425,6 +425,7 @@ def setBid (s : State) (id u : Nat) (x now : Int) : List Auc1 :=
 
 /-- `MsgPlaceSurplusBid` (surplus.go:285-346); the bid itself is in the secondary asset (not booked here) -/
 def surplusBid (s : State) (app id u : Nat) (amt now : Int) : Option State :=
+  if id = 0 ∨ amt < 0 then none else         -- ValidateBasic
   match s.auctions.find? (fun a => a.id == id && a.app == app && a.surplus) with
   | none => none
   | some a =>
@@ -433,6 +434,7 @@ def surplusBid (s : State) (app id u : Nat) (amt now : Int) : Option State :=
 /-- `MsgPlaceDebtBid` (debt.go:274-345): the bidder pays the expected collector-asset amount into the auction account, the previous
 bidder is refunded; the bid is the amount of secondary asset he is willing to take -/
 def debtBid (s : State) (app id u : Nat) (bid exp now : Int) : Option State :=
+  if id = 0 ∨ bid ≤ 0 ∨ exp < 0 then none else   -- ValidateBasic: the bid must be positive
   match s.auctions.find? (fun a => a.id == id && a.app == app && !a.surplus) with
   | none => none
   | some a =>
